@@ -315,6 +315,29 @@ class _SetDefault(ast.NodeTransformer):
         return self.generic_visit(node)
 
 
+def _compiled_regex_calls(tree: ast.AST) -> int:
+    """``re.compile(P).sub(R, S)`` (a pattern compiled once at module level, shown at its use by constant propagation) is
+    ``re.sub(P, R, S)``; likewise search / match / fullmatch / findall / finditer / split / subn."""
+    done = 0
+
+    class R(ast.NodeTransformer):
+        def visit_Call(self, node):
+            nonlocal done
+            self.generic_visit(node)
+            f = node.func
+            if isinstance(f, ast.Attribute) and f.attr in ("sub", "subn", "search", "match", "fullmatch", "findall", "finditer", "split") \
+                    and isinstance(f.value, ast.Call) and isinstance(f.value.func, ast.Attribute) and f.value.func.attr == "compile" \
+                    and isinstance(f.value.func.value, ast.Name) and f.value.func.value.id == "re" and len(f.value.args) == 1 and not f.value.keywords:
+                done += 1
+                return ast.copy_location(ast.Call(func=ast.Attribute(value=ast.Name("re", ast.Load()), attr=f.attr, ctx=ast.Load()),
+                                                  args=[f.value.args[0]] + list(node.args), keywords=node.keywords), node)
+            return node
+    R().visit(tree)
+    if done:
+        ast.fix_missing_locations(tree)
+    return done
+
+
 def canonicalise(tree: ast.AST, eq_none: bool = True) -> None:
     """*eq_none* = False where ``==`` may be overloaded to build an object (the SD DSL): there ``x == None`` is not ``x is None``."""
     _Canon(eq_none).visit(tree)
@@ -325,6 +348,7 @@ def canonicalise(tree: ast.AST, eq_none: bool = True) -> None:
     _drop_identity_assignments(tree)
     _SetDefault().visit(tree)
     propagate_constants(tree)
+    _compiled_regex_calls(tree)
     _Unroll().visit(tree)
     if _closure_factories(tree) or True:
         _dicts_built_by_update(tree)
